@@ -13,6 +13,9 @@ class ConcreteEx:
         if c is None: raise Unsupported('symbolic decision in concrete reference run')
         return c
     def concretize_int(s, v, what='', limit=0): return v.concrete()
+    def assume(s, c): pass
+    def choose(s, conds):
+        raise Unsupported('symbolic decision in concrete reference run')
 
 TEMPLATES = ['{T}', 'a{T}b', 'a {T} b', 'a{T}', '{T}a', '[{T}]', 'a.{T}', '{T}.a', 'f({T})', 'a[{T}]', 'a[?{T}]', 'a[?b{T}c]', '{T}`1`', '`1`{T}`2`', '({T})', '{a:{T}}', 'a[{T}:]', '!{T}']
 
